@@ -537,6 +537,22 @@ pub fn open_db(backend: MemBackend, cfg: &Cfg) -> Result<Database, redb::Databas
     b.create_with_backend(backend)
 }
 
+/// snapshot of the storage after a durable commit / clean close, for the Lean format decoder
+fn emit_image<F: Fam>(out: &mut Out, backend: &MemBackend, cfg: &Cfg, shadow: &Shadow, when: &str) {
+    if !crate::image::ENABLED.load(std::sync::atomic::Ordering::Relaxed) {
+        return;
+    }
+    let path = crate::image::save("tbl", &backend.snapshot());
+    out.count("images");
+    out.line(&format!(
+        "img check {path} {} {when} t:normal:{}:bytes:{}:{:016x}",
+        cfg.page,
+        F::DESC,
+        shadow.committed.len(),
+        dump_hash(&shadow.committed)
+    ));
+}
+
 /// Runs a whole program (list of requests) on the real database and on the oracle.
 /// Returns false if the case could not be completed (panic caught).
 pub fn run_program<F: Fam>(prog: &[String], out: &mut Out) -> bool {
@@ -589,6 +605,9 @@ pub fn run_program<F: Fam>(prog: &[String], out: &mut Out) -> bool {
                         txn.commit().expect("commit");
                         shadow.committed = shadow.cur.clone();
                         out.line("tbl commit");
+                        if fnv64(&[prog[i - 1].as_bytes(), &i.to_le_bytes()]) % 3 == 0 {
+                            emit_image::<F>(out, &backend, &cfg, &shadow, "commit");
+                        }
                     } else {
                         txn.abort().expect("abort");
                         shadow.cur = shadow.committed.clone();
@@ -628,6 +647,9 @@ pub fn run_program<F: Fam>(prog: &[String], out: &mut Out) -> bool {
         }
     }));
     drop(db);
+    if res.is_ok() && prog.len() > 1 {
+        emit_image::<F>(out, &backend, &cfg, &shadow, "close");
+    }
     if let Err(p) = res {
         let msg = p.downcast_ref::<String>().cloned().or_else(|| p.downcast_ref::<&str>().map(|s| s.to_string())).unwrap_or_default();
         out.oracle_fail(format!("table-panic|{}: panic at program line {i} ({}): {}", F::DESC, prog.get(i).cloned().unwrap_or_default(), msg.lines().next().unwrap_or("")));
@@ -772,7 +794,10 @@ fn systematic(out: &mut Out, depth: usize) {
         prog.push("commit".into());
         prog.push("dump".into());
         out.begin_case("systematic bytes 512");
+        let sel = idx.iter().fold(7usize, |a, b| a.wrapping_mul(31).wrapping_add(*b)) % 24 == 0;
+        crate::image::ENABLED.store(sel, std::sync::atomic::Ordering::Relaxed);
         let ok = run_program::<FamBytes>(&prog, out);
+        crate::image::ENABLED.store(true, std::sync::atomic::Ordering::Relaxed);
         out.end_case(ok);
         out.count("systematic_programs");
         // next index vector
